@@ -52,12 +52,36 @@ func (d c07DS) vec(n int) []float32 {
 		if n%10 == 0 && n < 60 && d.Metric == "euclidean" {
 			return make([]float32, d.Dim)
 		}
+	case "peaked":
+		// the first vector is flat, all others have one or two dominant components: a quantiser trained on
+		// the first vector alone (instead of on the data set) clips everything else
+		v := make([]float32, d.Dim)
+		if n == 0 {
+			for i := range v {
+				v[i] = 1
+			}
+			return v
+		}
+		for i := range v {
+			v[i] = float32(r.NormFloat64() * 0.02)
+		}
+		v[r.Intn(d.Dim)] = float32(0.3 + 0.7*r.Float64())
+		if r.Intn(2) == 0 {
+			v[r.Intn(d.Dim)] += float32(0.3 + 0.7*r.Float64())
+		}
+		return v
 	case "grid":
+		// integer lattice: heavy distance ties, but every id its own point (4096 points per lattice:
+		// side 64 in 2 dimensions, 16 in 3, 8 in 4)
+		side := map[int]int{2: 64, 3: 16, 4: 8}[d.Dim]
+		if side == 0 {
+			side = 8
+		}
 		v := make([]float32, d.Dim)
 		x := n
 		for i := range v {
-			v[i] = float32(x%7) + 0.5
-			x /= 7
+			v[i] = float32(x%side) + 0.5
+			x /= side
 		}
 		return v
 	}
@@ -297,7 +321,15 @@ func (s *c07State) eval(op Op, i int, where string) {
 		}
 		w.Stat("recall_evals", 1)
 		w.Stat("recall_milli_sum", int64(mean*1000))
-		hist := fmt.Sprintf("imported=%v uncommitted=%v compressed=%v vacuumed=%v refined=%v restarted=%v", s.imported, s.uncommitted, s.compressed, s.vacuumed, s.refined, s.restarted)
+		tomb := 0.0
+		if s.present > 0 {
+			tomb = 1 - float64(len(ids))/float64(s.present)
+		}
+		suffix := ""
+		if tomb >= 0.75 {
+			suffix = "_mostly_tombstones" // at least three quarters of the nodes in the graph are deleted and not yet vacuumed
+		}
+		hist := fmt.Sprintf("tombstones=%.2f imported=%v uncommitted=%v compressed=%v vacuumed=%v refined=%v restarted=%v", tomb, s.imported, s.uncommitted, s.compressed, s.vacuumed, s.refined, s.restarted)
 		// low-dimensional int8 data collapses onto a few hundred codes: duplicates, i.e. not benign
 		benign := (s.ds.Kind == "random" || s.ds.Kind == "dups") && !(s.prec == "int8" && s.ds.Dim < 8)
 		w.Stat("recall_min_tracker_evals kind="+s.ds.Kind, 1)
@@ -310,7 +342,7 @@ func (s *c07State) eval(op Op, i int, where string) {
 			if mean < c07RecallFloorAny {
 				kind = "recall_collapsed"
 			}
-			w.Fail("recall_floor", kind, fmt.Sprintf("%s: mean recall@%d (ef=%d) over %d queries is %.3f < %.2f; %d live vectors, M=%d efC=%d %s/%s data=%s dim=%d; %s", where, k, ef, nRecall, mean, rf, len(ids), s.cfg.M, s.cfg.EfC, s.ds.Metric, s.prec, s.ds.Kind, s.ds.Dim, hist), i)
+			w.Fail("recall_floor", kind+suffix, fmt.Sprintf("%s: mean recall@%d (ef=%d) over %d queries is %.3f < %.2f; %d live vectors, M=%d efC=%d %s/%s data=%s dim=%d; %s", where, k, ef, nRecall, mean, rf, len(ids), s.cfg.M, s.cfg.EfC, s.ds.Metric, s.prec, s.ds.Kind, s.ds.Dim, hist), i)
 			return
 		}
 		// retrieval of stored vectors by their own value: a large sample (up to 150 live ids), so that the
@@ -343,6 +375,11 @@ func (s *c07State) eval(op Op, i int, where string) {
 				selfHit++
 			} else if len(selfMiss) < 8 {
 				selfMiss = append(selfMiss, fmt.Sprintf("%s->%v", id, res))
+				if os.Getenv("KDSIM_DUMP") != "" {
+					big, _ := w.E.VSearch("ix", cloneVec(qv), 1, "", "", 5000, 0, nil)
+					k5, _ := w.E.VSearch("ix", cloneVec(qv), 5, "", "", ef, 0, nil)
+					fmt.Printf("MISS %s: ef=%d k=1 -> %v (d=%g); ef=5000 -> %v; k=5 -> %v; stored=%v\n", id, ef, res, refDistance(s.ds.Metric, qv, stored[res[0]]), big, k5, qv)
+				}
 			}
 		}
 		if selfN >= 40 {
@@ -374,7 +411,7 @@ func (s *c07State) eval(op Op, i int, where string) {
 				if sr < c07SelfFloorAny {
 					kind = "self_retrieval_collapsed"
 				}
-				w.Fail("recall_floor", kind, fmt.Sprintf("%s: only %d of %d stored vectors were the nearest result of a search (ef=%d) for their own value (floor %.2f; first misses %v); %d live vectors, M=%d efC=%d %s/%s data=%s dim=%d; %s", where, selfHit, selfN, ef, sf, selfMiss, len(ids), s.cfg.M, s.cfg.EfC, s.ds.Metric, s.prec, s.ds.Kind, s.ds.Dim, hist), i)
+				w.Fail("recall_floor", kind+suffix, fmt.Sprintf("%s: only %d of %d stored vectors were the nearest result of a search (ef=%d) for their own value (floor %.2f; first misses %v); %d live vectors, M=%d efC=%d %s/%s data=%s dim=%d; %s", where, selfHit, selfN, ef, sf, selfMiss, len(ids), s.cfg.M, s.cfg.EfC, s.ds.Metric, s.prec, s.ds.Kind, s.ds.Dim, hist), i)
 			}
 		}
 	}
@@ -401,11 +438,19 @@ func runC07(w *World, tr *Trace) {
 		ops = tr.Tasks[0]
 	} else {
 		small := r.Intn(2) == 0
-		const avoid = false
-		ds = c07DS{Seed: r.Int63n(1 << 40), Metric: pick(r, []string{"euclidean", "cosine"}), Kind: pick(r, []string{"random", "random", "clustered", "dups", "zeros", "grid"}), Clusters: 3 + r.Intn(8)}
+		// open finding F03 (at least 75 % of the graph are tombstones): 70 % of the runs have no heavy-deletion phase
+		avoid := w.Seed%10 < 7
+		w.Res.Avoid = avoid
+		ds = c07DS{Seed: r.Int63n(1 << 40), Metric: pick(r, []string{"euclidean", "cosine"}), Kind: pick(r, []string{"random", "random", "clustered", "dups", "zeros", "grid", "peaked"}), Clusters: 3 + r.Intn(8)}
 		ds.Dim = pick(r, []int{2, 3, 4, 8, 16, 32, 64})
 		if r.Intn(12) == 0 {
 			ds.Dim = pick(r, []int{128, 256})
+		}
+		if ds.Kind == "peaked" {
+			ds.Metric = "cosine"
+			if ds.Dim < 8 {
+				ds.Dim = 8 + r.Intn(25)
+			}
 		}
 		if ds.Kind == "grid" {
 			// lattice points: heavy distance ties. Euclidean only - under cosine all points of a ray are
@@ -466,7 +511,7 @@ func runC07(w *World, tr *Trace) {
 					next++
 				}
 				ops = append(ops, Op{K: "addbatch", Idx: "ix", IDs: ids})
-			case x < 8 && !small && !avoid:
+			case x < 8 && !small:
 				n := 1 + r.Intn(min(150, total-next))
 				var ids []string
 				for j := 0; j < n; j++ {
@@ -485,13 +530,9 @@ func runC07(w *World, tr *Trace) {
 			default:
 				switch r.Intn(6) {
 				case 0:
-					if !avoid {
-						ops = append(ops, Op{K: "maint", Idx: "ix", Task: "vacuum"})
-					}
+					ops = append(ops, Op{K: "maint", Idx: "ix", Task: "vacuum"})
 				case 1:
-					if !avoid {
-						ops = append(ops, Op{K: "maint", Idx: "ix", Task: "refine"})
-					}
+					ops = append(ops, Op{K: "maint", Idx: "ix", Task: "refine"})
 				case 2:
 					ops = append(ops, Op{K: "restart"})
 				case 3:
@@ -507,7 +548,7 @@ func runC07(w *World, tr *Trace) {
 			switch r.Intn(8) {
 			case 7:
 				// heavy deletion without vacuum: 80-95 % of what is live becomes tombstones the search must still traverse
-				if !small && len(liveN) > 60 {
+				if !small && len(liveN) > 60 && !avoid {
 					keep := len(liveN) * (5 + r.Intn(16)) / 100
 					for len(liveN) > keep && len(liveN) > 12 {
 						p := r.Intn(len(liveN))
@@ -523,13 +564,9 @@ func runC07(w *World, tr *Trace) {
 					liveN = append(liveN[:p], liveN[p+1:]...)
 				}
 			case 2:
-				if !avoid {
-					ops = append(ops, Op{K: "maint", Idx: "ix", Task: "vacuum"})
-				}
+				ops = append(ops, Op{K: "maint", Idx: "ix", Task: "vacuum"})
 			case 3:
-				if !avoid {
-					ops = append(ops, Op{K: "maint", Idx: "ix", Task: "refine"})
-				}
+				ops = append(ops, Op{K: "maint", Idx: "ix", Task: "refine"})
 			case 4:
 				ops = append(ops, Op{K: "restart"})
 			case 5:
@@ -655,6 +692,24 @@ func runC07(w *World, tr *Trace) {
 				}
 				s.prec = op.Prec
 				s.compressed = true
+				if op.Prec == "int8" {
+					// the quantiser range is documented as the 99.9th percentile of the absolute values of the
+					// data it was trained on - the whole index, when an index is compressed
+					var abs []float64
+					for _, n := range s.live {
+						for _, x := range normalize32(ds.vec(n)) {
+							abs = append(abs, math.Abs(float64(x)))
+						}
+					}
+					sort.Float64s(abs)
+					if len(abs) > 0 {
+						p999 := abs[int(float64(len(abs)-1)*0.999)]
+						if am := float64(w.int8Range("ix")); am < 0.8*p999 {
+							w.Fail("compression_within_precision", "quantiser_range_too_small", fmt.Sprintf("%s: after VCompress(int8) the quantiser range is %.4g, the 99.9th percentile of the %d stored components is %.4g: most of the index is clipped", where, am, len(abs), p999), i)
+							continue
+						}
+					}
+				}
 				s.present = len(s.live)
 				s.everMax = len(s.live)
 			case "restart":
